@@ -5,6 +5,7 @@ set -e
 cd "$(dirname "$0")"
 export CARGO_NET_OFFLINE=true
 python3 tools/gen_consts.py
+python3 tools/gen_assets.py
 cd coq
 coq_makefile -f _CoqProject -o Makefile
 timeout 3000 make -j16
